@@ -93,8 +93,6 @@ class Mon:
         translates anything, interpret the expression differently from standard semantics on some prefix of w?"""
         import signal
         cache = self.__dict__.setdefault('_gd_cache', {})
-        if getattr(self, 'cur_depth', 0) >= 2:
-            w = w[:6]           # `re` on nested repetitions: see crosscheck
         if (text, w) in cache:
             return cache[(text, w)]
         old_handler = signal.signal(signal.SIGALRM, _alarm)
@@ -114,6 +112,16 @@ class Mon:
             import greenery.lego
             f = greenery.lego.parse(text).fsm()
             cre = re.compile(text, re.DOTALL)
+            fullmatch = lambda s_: cre.fullmatch(s_) is not None        # noqa: E731
+            dfa = getattr(self, 'cur_dfa', None)
+            if getattr(self, 'cur_depth', 0) >= 2 and dfa is not None:
+                # nested repetitions: `re` may take exponential time and cannot be interrupted (see crosscheck); standard semantics
+                # are then taken from the harness' own automaton, itself cross-checked against `re` on the short prefixes
+                def fullmatch(s_):
+                    S = dfa.start
+                    for c_ in s_:
+                        S = dfa.step(S, c_)
+                    return S in dfa.accept
             if isinstance(w, bytes):
                 for cut in range(len(w), -1, -1):       # longest prefix that is valid UTF-8
                     try:
@@ -139,11 +147,11 @@ class Mon:
                                 changed = True
             st = f.initial
             for i in range(len(w) + 1):
-                if (st in f.finals) != (cre.fullmatch(w[:i]) is not None):
+                if (st in f.finals) != fullmatch(w[:i]):
                     return True
                 # a concrete word that greenery's fsm accepts and the standard semantics (re) rejects: the prefix is live for
                 # greenery only.  Demonstrated by the word itself, independent of the harness' own oracle.
-                if st in comp and cre.fullmatch(w[:i] + comp[st]) is None:
+                if st in comp and not fullmatch(w[:i] + comp[st]):
                     return True
                 if i < len(w):
                     row = f.map[st]
@@ -244,6 +252,7 @@ class Mon:
         except rx.TooBig:
             ctx.count('skipped:oracle-automaton-too-big')
             return
+        self.cur_dfa = dfa
         try:
             m_str = construct(cpppo.regex, text)
             m_byt = construct(cpppo.regex_bytes, text)
@@ -448,6 +457,7 @@ def run(ctx):
         except rx.TooBig:
             ctx.count('skipped:oracle-automaton-too-big')
             continue
+        mon.cur_dfa = dfa
         try:
             m = construct(mon.cpppo.regex_bytes, text)
         except SlowConstruction:
